@@ -33,7 +33,7 @@ def run(ctx):
     batch = Batch(ctx["driver_ok"])
     models = list(known_decay_models)
 
-    def parse_line(line_text, extra=(), calls=1):
+    def parse_line(line_text, extra=(), calls=1, reparse=0):
         text = f"Decay B0\n{line_text}\nEnddecay\n"
         p = DecFileParser.from_string(text)
         if extra:
@@ -44,15 +44,18 @@ def run(ctx):
                 k = max(1, len(ex) // calls)
                 for j in range(0, len(ex), k):
                     p.load_additional_decay_models(*ex[j:j + k])
+        # the same parser object parsed again (the registered names are part of the parser, not of one parse)
+        for i in range(reparse):
+            p.parse(include_ccdecays=(i % 2 == 1))
         p.parse()
         dm = p._find_decay_modes("B0")[0]
         d = p._decay_mode_details(dm, display_photos_keyword=True)
         return d
 
-    def expect_model(line_text, name, photos, params, fs, extra=(), calls=1, label="", nontrivial=False):
-        case = {"kind": "model-name", "label": label, "line": line_text, "registered": list(extra), "calls": calls}
+    def expect_model(line_text, name, photos, params, fs, extra=(), calls=1, label="", nontrivial=False, reparse=0):
+        case = {"kind": "model-name", "label": label, "line": line_text, "registered": list(extra), "calls": calls, "parsed_before": reparse}
         try:
-            d = parse_line(line_text, extra, calls)
+            d = parse_line(line_text, extra, calls, reparse)
             got = [d["model"], list(d["fs"]), d["model_params"]]
         except Exception as e:
             got = "error: " + err_class(e)
@@ -63,10 +66,10 @@ def run(ctx):
             res.violation("a supported model name is not recognised as itself", case, impl=got, model=want, clause="recognition: " + label,
                           finding_key="F15" if name.endswith("-") else None)
 
-    def expect_reject(line_text, extra=(), label="near-miss"):
-        case = {"kind": "unknown-model", "label": label, "line": line_text, "registered": list(extra)}
+    def expect_reject(line_text, extra=(), label="near-miss", calls=1, reparse=0):
+        case = {"kind": "unknown-model", "label": label, "line": line_text, "registered": list(extra), "calls": calls, "parsed_before": reparse}
         try:
-            d = parse_line(line_text, extra)
+            d = parse_line(line_text, extra, calls, reparse)
             got = "accepted as " + d["model"]
         except Exception as e:
             got = "error"
@@ -160,15 +163,17 @@ def run(ctx):
         others = [base + "-ALT", "ZZTOP"] if rng.random() < 0.5 else []
         extra = [x for x in dict.fromkeys([u] + others) if x not in models]
         calls = rng.choice([1, 1, 2, 3])
+        reparse = rng.choice([0, 0, 1, 2])
         photos = rng.random() < 0.3
         pars = rng.random() < 0.6
         ph = " PHOTOS" if photos else ""
         pa = " 0.25 w" if pars else ""
         expect_model(f"1.0 K+ pi-{ph} {u}{pa};", u, photos, [0.25, "w"] if pars else "", ["K+", "pi-"], extra=extra, calls=calls,
-                     label="registered:" + kind, nontrivial=True)
+                     label="registered:" + kind, nontrivial=True, reparse=reparse)
         # the published names must all still work when user names are registered
         m = rng.choice(models)
-        expect_model(f"1.0 K+ pi- {m} 3;", m, False, [3.0], ["K+", "pi-"], extra=extra, calls=calls, label="published-with-registered", nontrivial=True)
+        expect_model(f"1.0 K+ pi- {m} 3;", m, False, [3.0], ["K+", "pi-"], extra=extra, calls=calls, label="published-with-registered", nontrivial=True,
+                     reparse=rng.choice([0, 1]))
         # a name registered with one parser is not known to another parser made afterwards (nor to one that registers other names)
         if spec_lex_model(models, u + " ") is None and spec_lex_model(models, u + ";") is None:
             expect_reject(f"1.0 K+ pi- {u};", extra=(), label="registered-elsewhere")
@@ -178,7 +183,7 @@ def run(ctx):
         if True:
             near = u + rng.choice(["x", "_", "7", "X"])
             if spec_lex_model(models + extra, near + " ") is None and near not in extra:
-                expect_reject(f"1.0 K+ pi- {near};", extra=extra, label="near-miss-of-registered")
+                expect_reject(f"1.0 K+ pi- {near};", extra=extra, label="near-miss-of-registered", calls=calls, reparse=rng.choice([0, 1]))
     # near-miss unknown words
     n_near = 120 if tier == "quick" else 2000
     for i in range(n_near):
